@@ -79,8 +79,8 @@ def gen_case(rng, tier):
         inp["renderings"] = [{"repG": mg.gen_repr(rng), "repH": mg.gen_repr(rng), "ev": ev(),
                               "seedG": rng.randrange(10 ** 6), "seedH": rng.randrange(10 ** 6)} for _ in range(k)]
     elif kind == "collection":
-        m = rng.randint(2, 5)
-        gs = [mg.gen_graph(rng, max_n)]
+        m = rng.randint(2, 5) if rng.random() < 0.85 else rng.randint(9, 12)
+        gs = [mg.gen_graph(rng, max_n if m <= 5 else min(max_n, 5))]
         for _ in range(m - 1):
             if rng.random() < 0.3:
                 g = rng.choice(gs)
@@ -90,8 +90,21 @@ def gen_case(rng, tier):
                 gs.append(mg.gen_graph(rng, max_n))
         inp["graphs"] = gs
         inp["reps"] = [mg.gen_repr(rng) for _ in gs]
+        if m >= 9 and rng.random() < 0.7:       # many conversions of small dense integer arrays
+            dt = rng.choice(("int8", "uint8", "int"))
+            inp["reps"] = [{"fmt": "dense", "fill": rng.choice(mg.FILLS), "dtype": dt} for _ in gs]
         inp["evs"] = [ev() for _ in range(rng.randint(1, 2))]
         inp["container"] = rng.choice(("list", "tuple"))
+        if rng.random() < 0.25:
+            # one 3-D ndarray: a stack of equally sized dense adjacency matrices is an iterable of matrices too
+            n0 = gs[0]["n"]
+            gs2 = [gs[0]]
+            for g in gs[1:]:
+                gs2.append(g if g["n"] == n0 else {"n": n0, "edges": mg.gen_connected(rng, n0)})
+            inp["graphs"] = gs2
+            dt = rng.choice(("int", "int8"))
+            inp["reps"] = [{"fmt": "dense", "fill": rng.choice(mg.FILLS), "dtype": dt} for _ in gs2]
+            inp["container"] = "ndarray3d"
     else:
         inp["G"] = gen_disconnected(rng, max_n)
         inp["H"] = mg.gen_graph(rng, max_n) if rng.random() < 0.8 else gen_disconnected(rng, max_n)
@@ -166,6 +179,10 @@ def run_case(case, sched):
         As = [mg.materialize(g, r) for g, r in zip(gs, reps)]
         if inp.get("container") == "tuple":
             As = tuple(As)
+        elif inp.get("container") == "ndarray3d":
+            if len({g["n"] for g in gs}) != 1 or any(r.get("fmt") != "dense" for r in reps):
+                raise InvalidCase("a 3-D stack needs equally sized dense matrices")
+            As = np.stack([np.asarray(a) for a in As])
         ex = {}
         for i in range(len(gs)):
             for j in range(i + 1, len(gs)):
@@ -188,6 +205,8 @@ def run_case(case, sched):
                                  % (i, j, n, e["mode"], len(draws)))
             sched.note("collection lbs=%r ubs=%r" % (lbs.tolist(), ubs.tolist()))
         probes["collection_size"] = len(gs)
+        probes["collection_as_3d_stack"] = int(inp.get("container") == "ndarray3d")
+        probes["collection_ge_9_graphs"] = int(len(gs) >= 9)
         nontrivial = max(g["n"] for g in gs) >= 3 and all(v is not None for v in ex.values())
         key = [kind, gs]
     elif kind == "disconnected":
@@ -256,6 +275,10 @@ def shrink_candidates(case):
                 del c["inputs"]["graphs"][i]
                 del c["inputs"]["reps"][i]
                 yield c
+        if inp.get("container") != "list":
+            c = copy.deepcopy(case)
+            c["inputs"]["container"] = "list"
+            yield c
         for i, g in enumerate(inp["graphs"]):
             for v in range(g["n"] - 1, -1, -1):
                 if g["n"] > 1:
@@ -292,7 +315,7 @@ def shrink_candidates(case):
             c["inputs"]["renderings"][i]["ev"] = {"mode": "identity", "k": 0}
             yield c
     for i, r in enumerate(inp.get("reps") or []):
-        if r != simple:
+        if r != simple and inp.get("container") != "ndarray3d":
             c = copy.deepcopy(case)
             c["inputs"]["reps"][i] = dict(simple)
             yield c
